@@ -13,7 +13,9 @@ pub const LETTERS: [&str; 19] = ["a", "e", "i", "o", "u", "p", "t", "k", "b", "d
 const VOWELS: [&str; 5] = ["a", "e", "i", "o", "u"];
 const CONS: [&str; 14] = ["p", "t", "k", "b", "d", "s", "z", "m", "n", "l", "r", "j", "w", "h"];
 /// less ordinary segments (several place nodes, pharyngeals, glottals, clicks, diacritics); never the planted q / x
-const RARE: [&str; 16] = ["ħ", "ʕ", "tˤ", "kʷ", "ʔ", "ɡʷ", "pʲ", "ŋ", "ɲ", "ʃ", "t͡s", "ɴǃ", "ɫ", "e̘", "o̙", "ɥ"];
+const RARE: [&str; 22] = ["ħ", "ʕ", "tˤ", "kʷ", "ʔ", "ɡʷ", "pʲ", "ŋ", "ɲ", "ʃ", "t͡s", "ɴǃ", "ɫ", "e̘", "o̙", "ɥ", "t͡ʃ", "d͡ʒ", "p͡f", "ɬ", "ʙ", "ɾ"];
+/// tones of every length (1 to 4 digits): joined tones of neighbouring syllables must still be tones
+pub const TONES: [&str; 10] = ["5", "51", "214", "3", "1", "35", "12", "312", "1324", "2143"];
 
 /// a random word text over the generator's inventory; `long`: allow length marks; stress and tone are common
 pub fn gen_word_text(rng: &mut Rng, long: bool) -> String {
@@ -24,6 +26,7 @@ pub fn gen_word_text(rng: &mut Rng, long: bool) -> String {
     }
     let nsyl = 1 + rng.below(4);
     let mut s = String::new();
+    let tonal = rng.chance(1, 6);          // a tonal word: (nearly) every syllable carries a tone
     for i in 0..nsyl {
         match rng.below(5) { 0 => s.push('ˈ'), 1 => s.push('ˌ'), _ => if i > 0 { s.push('.') } }
         let shape = rng.below(6);
@@ -39,7 +42,8 @@ pub fn gen_word_text(rng: &mut Rng, long: bool) -> String {
             if long && rng.chance(1, 8) { s.push('ː'); if rng.chance(1, 4) { s.push('ː'); } }
             prev = g;
         }
-        if rng.chance(1, 5) { s.push_str(["5", "51", "214", "3"][rng.below(4)]); }
+        if tonal { if !rng.chance(1, 6) { s.push_str(TONES[rng.below(TONES.len())]); } }
+        else if rng.chance(1, 5) { s.push_str(["5", "51", "214", "3"][rng.below(4)]); }
     }
     s
 }
@@ -147,7 +151,7 @@ impl Writer {
     }
 }
 
-fn read_asts(path: &str) -> Vec<Value> {
+pub fn read_asts(path: &str) -> Vec<Value> {
     let f = std::io::BufReader::new(std::fs::File::open(path).expect("rules file"));
     let mut v = Vec::new();
     tlc_vectors(f, |x| v.push(x), |_| {});
@@ -212,6 +216,17 @@ pub fn record(prop: &str, rules_file: &str, out: &str, nwords: usize) {
                             let (bs, as_) = if side == 0 { (els.join(" "), a.join(" ")) } else { (b.join(" "), els.join(" ")) };
                             sweep.push(format!("* > e / {bs}_{as_}")); sweep.push(format!("* > $ / {bs}_{as_}")); sweep.push(format!("* > e t / {bs}_{as_}"));
                         }
+                    }
+                }
+                // ... and inside syllable structures: `<C V>` etc. with q at every inner position, as input and next to the underline of an insertion
+                let struct_templates: [&[&str]; 6] = [&["C", "V"], &["C", "V", "C"], &["...", "a"], &["C", "..."], &["k", "a"], &["[]"]];
+                for tpl in struct_templates.iter() {
+                    for pos in 0..=tpl.len() {
+                        if pos > 0 && tpl[pos - 1] == "..." && pos == tpl.len() && tpl.len() == 1 { continue; }
+                        let mut els: Vec<&str> = tpl.to_vec(); els.insert(pos, "q");
+                        let st = format!("<{}>", els.join(" "));
+                        for r in [format!("{st} > *"), format!("{st} > <p u>"), format!("{st} > [+stress]"), format!("{st} <t a> > &"), format!("<t a> {st} > &"), format!("{st} > [tone: 5] / _#"),
+                                  format!("* > e / _{st}"), format!("* > e / {st}_"), format!("* > $ / a_{st}"), format!("* > e / {st} $_")] { sweep.push(r); }
                     }
                 }
                 for text in sweep {
@@ -300,6 +315,26 @@ pub fn record(prop: &str, rules_file: &str, out: &str, nwords: usize) {
                         let key = format!("{}|{}", rule, w_compact(&st.word, true));
                         if seen.insert(key) {
                             w.put(json!({"cls": "sweep", "out": "ok", "w": w_compact(&st.word, true)}), json!({"history": [rule], "word": wt, "step": si, "rule_index": st.rule, "sub": st.sub, "before": wt, "after": v::render_word(&st.word, &al)}));
+                        }
+                    }
+                }
+            }
+            // systematic stratum: tones of neighbouring syllables joined by every boundary-removing rule shape, for every ordered pair (and triple) of tones of 1..4 digits
+            for (ti, t1) in TONES.iter().enumerate() {
+                for t2 in TONES.iter() {
+                    let t3 = TONES[(ti * 7 + 3) % TONES.len()];
+                    for wt in [format!("ma{t1}.na{t2}"), format!("ma{t1}.na{t2}.ka{t3}"), format!("man{t1}.ka{t2}"), format!("ˈma{t1}ˌna{t2}")] {
+                        for rule in ["$ > *", "$ > * / _n", "n$ > ŋ", "$ C > & / a_", "a $ > e", "% % > &", "$ > * / a_k", "$n > *"] {
+                            let Ok(word) = v::parse_word(&wt, &al) else { continue };
+                            let out = run_rules(&[rule.to_string()], &word, 100_000, false);
+                            sum.vectors += 1; sum.count(out.out, 1); sum.count("tone_join_sweep", 1);
+                            for (si, st) in out.steps.iter().enumerate() {
+                                if st.word != word { sum.nontrivial += 1; }
+                                let key = format!("{}|{}", rule, w_compact(&st.word, true));
+                                if seen.insert(key) {
+                                    w.put(json!({"cls": "sweep", "out": "ok", "w": w_compact(&st.word, true)}), json!({"history": [rule], "word": wt, "step": si, "rule_index": st.rule, "sub": st.sub, "before": wt, "after": v::render_word(&st.word, &al)}));
+                                }
+                            }
                         }
                     }
                 }
